@@ -111,7 +111,7 @@ def features(parents, p):
     return "+".join(f) or "acyclic-at-caller"
 
 
-def run_world(arg):
+def _run_world(arg):
     parents, ranks, seed = arg[:3]
     names = arg[3] if len(arg) > 3 else None
     if names:
@@ -137,6 +137,7 @@ def run_world(arg):
     skipped = 0
     n = len(parents)
     for p in range(1, n + 1):
+        count[0] = 0
         pr = psutil.Process(p)
         r = ref[p]
         feat = features(parents, p)
@@ -177,7 +178,7 @@ def run_world(arg):
     return bad, skipped
 
 
-def run_reused(arg):
+def _run_reused(arg):
     """the caller's own pid has been recycled: everything raises NoSuchProcess"""
     parents, ranks, seed, victim = arg[:4]
     import psutil
@@ -202,7 +203,7 @@ def run_reused(arg):
     return bad, 0
 
 
-def run_after_history(arg):
+def _run_after_history(arg):
     """start from a non-initial state: process_iter() has cached every process, then one pid is recycled by a
     younger process (possibly with another parent); the tree functions must describe the NEW table"""
     parents, ranks, seed, victim, new_ppid = arg
@@ -262,7 +263,7 @@ def run_after_history(arg):
     return bad, 0
 
 
-def run_fault(arg):
+def _run_fault(arg):
     """tree walk with one process of the table vanishing just before access i (F): only psutil errors may escape,
     and what is returned lies between the walk of the table before and after"""
     parents, seed, caller, recursive, idx = arg
@@ -305,6 +306,35 @@ def run_fault(arg):
         if not set(got[1]) <= may or len(set(got[1])) != len(got[1]):
             bad.append(("fault:children-extra", "got %r, table before %r" % (got[1], sorted(may))))
     return {"n": len(hook.accesses), "bad": bad}
+
+
+def _timed(fn, arg, hang_result):
+    from vf.harness import deadline, Hang
+    try:
+        with deadline(60):
+            return fn(arg)
+    except Hang as e:
+        return hang_result(e, arg)
+
+
+def _hang_pair(e, arg):
+    return [("does-not-terminate", "%s (world %r)" % (e, arg[:2]))], 0
+
+
+def run_world(arg):
+    return _timed(_run_world, arg, _hang_pair)
+
+
+def run_reused(arg):
+    return _timed(_run_reused, arg, _hang_pair)
+
+
+def run_after_history(arg):
+    return _timed(_run_after_history, arg, _hang_pair)
+
+
+def run_fault(arg):
+    return _timed(_run_fault, arg, lambda e, a: {"n": 0, "bad": [("does-not-terminate", "%s (%r)" % (e, a))]})
 
 
 def fault_part(ctx):
